@@ -5,6 +5,8 @@ import (
 	"fmt"
 	"math/rand"
 	"os"
+	"os/exec"
+	"path/filepath"
 	"strings"
 	"sync"
 	"time"
@@ -221,6 +223,14 @@ func checkC01(c *core.Ctx) {
 	if !ok {
 		return
 	}
+	// 3b. no controller: real cores and real memory ordering
+	pp, nmsg, err := runMailboxPingPong(core.Pick(c, 5*time.Second, 40*time.Second), 4)
+	if err != nil {
+		c.Broken("%v", err)
+		return
+	}
+	traces = append(traces, pp...)
+	c.Set("ungated_ping_pong_messages", nmsg)
 	// 4. TLC judges every recorded trace with the monitor
 	res := ValidateTraces(c, "mailbox", "MailboxMon", "MailboxMon.cfg", traces, mbDefaults)
 	res.Report(c, "MailboxMon")
@@ -354,4 +364,52 @@ func mbCollectTraces(c *core.Ctx, dir string, gens []string, perCfg, nRandom int
 		return nil, nil, false
 	}
 	return traces, distinct, true
+}
+
+// ---- ungated: real cores, real memory ordering ----
+//
+// The controlled scheduler explores sequentially consistent interleavings of the hook points; it cannot see an effect
+// that no such interleaving has (an operation that is not atomic any more and is re-ordered by the processor).  This run
+// uses no controller and no hooks: cmd/pingpong is built WITHOUT the verif tag and run as a child process (see there).
+// The trace given to MailboxMon holds, per mailbox, the last message only.
+func runMailboxPingPong(d time.Duration, boxes int) ([]*Trace, int64, error) {
+	dir := os.Getenv("VERIF_DIR")
+	bin := filepath.Join(dir, ".build", fmt.Sprintf("pingpong-%d", os.Getpid()))
+	build := exec.Command("go1.26", "build", "-o", bin, "./cmd/pingpong")
+	build.Dir = filepath.Join(dir, "harness")
+	if out, err := build.CombinedOutput(); err != nil {
+		return nil, 0, fmt.Errorf("building cmd/pingpong without the verif tag: %v\n%s", err, out)
+	}
+	defer os.Remove(bin)
+	out, err := exec.Command(bin, d.String(), fmt.Sprint(boxes)).Output()
+	if err != nil {
+		return nil, 0, fmt.Errorf("pingpong child: %v", err)
+	}
+	var traces []*Trace
+	var total int64
+	for _, line := range strings.Split(strings.TrimSpace(string(out)), "\n") {
+		var r struct {
+			Box  int   `json:"box"`
+			N    int64 `json:"n"`
+			Lost bool  `json:"lost"`
+		}
+		if json.Unmarshal([]byte(line), &r) != nil {
+			continue
+		}
+		total += r.N
+		id := fmt.Sprintf("m%d", r.N)
+		ev := []map[string]any{{"e": "EnqCall", "th": "s1", "m": id}, {"e": "EnqRet", "th": "s1", "m": id}}
+		ulen := 1
+		if !r.Lost {
+			ulen = 0
+			ev = append(ev, map[string]any{"e": "Start", "th": "c1"}, map[string]any{"e": "HandleIn", "th": "c1", "m": id, "sender": "s1"}, map[string]any{"e": "HandleOut", "th": "c1", "m": id})
+		}
+		ev = append(ev, map[string]any{"e": "Quiescent", "paused": 0, "ulen": ulen, "live": 0})
+		traces = append(traces, &Trace{Events: ev, Class: "mailbox-ping-pong-ungated", Name: fmt.Sprintf("pingpong#%d", r.Box),
+			Scenario: map[string]any{"messages": r.N, "lost_after_message": r.Lost, "what": "uninstrumented build: one sender plays ping-pong with the handler of a real mailbox, two goroutines poll IsPaused"}})
+	}
+	if len(traces) != boxes {
+		return nil, 0, fmt.Errorf("pingpong child reported %d of %d mailboxes", len(traces), boxes)
+	}
+	return traces, total, nil
 }
